@@ -213,7 +213,10 @@ class Sched:
 
     # ---------------------------------------------------------------- plumbing
     def cur(self):
-        return getattr(greenlet.getcurrent(), "_verif_worker", None)
+        try:
+            return getattr(greenlet.getcurrent(), "_verif_worker", None)
+        except BaseException:  # interpreter / greenlet teardown
+            return None
 
     def now(self):
         return self.clock
